@@ -628,6 +628,8 @@ type c17case struct {
 // runSvcCase executes the applicable actions of the case; returns executed actions, snapshots and
 // the set of alphabet symbols applicable at the end (for the DFS).
 func runSvcCase(cs c17case, alphabet []string) (done []string, snaps []string, next []string) {
+	tr := newTrack("C17.svc", cs.cfg)
+	defer tr.done()
 	c := newC17svc(cs.cfg[0], cs.cfg[1] == '1', cs.cfg[2] == '1', cs.cfg[3] == '1')
 	c.settle()
 	snaps = append(snaps, c.snapshot())
@@ -635,6 +637,7 @@ func runSvcCase(cs c17case, alphabet []string) (done []string, snaps []string, n
 		if !c.applicable(a) {
 			continue
 		}
+		tr.step(a)
 		c.do(a)
 		done = append(done, a)
 		snaps = append(snaps, c.snapshot())
@@ -650,6 +653,8 @@ func runSvcCase(cs c17case, alphabet []string) (done []string, snaps []string, n
 
 // walkSvcCase: a random walk that at every step picks (weighted) among the actions applicable now.
 func walkSvcCase(cfg string, weighted []string, steps int, r *rng) (done, snaps []string) {
+	tr := newTrack("C17.svc", cfg)
+	defer tr.done()
 	c := newC17svc(cfg[0], cfg[1] == '1', cfg[2] == '1', cfg[3] == '1')
 	c.settle()
 	snaps = append(snaps, c.snapshot())
@@ -664,6 +669,7 @@ func walkSvcCase(cfg string, weighted []string, steps int, r *rng) (done, snaps 
 			break
 		}
 		a := pick(r, app)
+		tr.step(a)
 		c.do(a)
 		done = append(done, a)
 		snaps = append(snaps, c.snapshot())
@@ -678,6 +684,49 @@ func c17EmitSvc(cfg string, done, snaps []string) []string {
 		acts = strings.Join(done, " ")
 	}
 	return []string{"C17.svc", cfg, acts, strings.Join(snaps, " | ")}
+}
+
+// caseTrack tells the driver which case (and how far into it) is being run against the implementation,
+// so that a crash of the process (a panic in one of the library's goroutines cannot be recovered here)
+// is attributed to the cases in flight: cmd, configuration and the actions up to the one in progress.
+type caseTrack struct {
+	cmd, cfg string
+	acts     []string
+	end      func()
+}
+
+var trackEnv *env // set by the property entry points; nil = no progress log
+
+func newTrack(cmd, cfg string) *caseTrack {
+	t := &caseTrack{cmd: cmd, cfg: cfg}
+	t.mark()
+	return t
+}
+
+func (t *caseTrack) mark() {
+	if trackEnv == nil {
+		return
+	}
+	if t.end != nil {
+		t.end()
+	}
+	acts := "-"
+	if len(t.acts) > 0 {
+		acts = strings.Join(t.acts, " ")
+	}
+	t.end = trackEnv.begin(t.cmd + "\t" + t.cfg + "\t" + acts)
+}
+
+func (t *caseTrack) step(a string) {
+	t.acts = append(t.acts, a)
+	t.mark()
+}
+
+func (t *caseTrack) done() {
+	if t.end != nil {
+		t.end()
+		t.end = nil
+	}
 }
 
 // parallelMap runs f over 0..n-1 on a bounded worker pool and returns the results in index order.
@@ -779,6 +828,7 @@ var c17WeightedHelpers = []string{"SA", "SA", "SA", "XA", "X", "S", "s0", "s0", 
 	"L", "G", "D1", "D2", "R1"}
 
 func runC17(e *env) {
+	trackEnv = e
 	only := ""
 	if len(e.args) > 0 {
 		only = e.args[0]
